@@ -37,7 +37,7 @@ def finish(ctx):
 
 def generate(ctx):
     rng = ctx.rng
-    n = ctx.scaled({"quick": 2400, "thorough": 200000}[ctx.tier])
+    n = ctx.scaled({"quick": 2400, "thorough": 100000}[ctx.tier])
     for i in range(n):
         sS = float(10 ** rng.uniform(-2, -0.5))
         ratio = float(10 ** rng.uniform(-1.2, 1.2))
